@@ -428,7 +428,9 @@ func binop(fr *frame, op token.Token, t types.Type, x, y value) value {
 		case complex128:
 			return x.(complex128) + y.(complex128)
 		case string:
-			return x.(string) + y.(string)
+			r := x.(string) + y.(string)
+			fr.i.px.workUnits += int64(len(r))
+			return r
 		}
 
 	case token.SUB:
